@@ -503,3 +503,6 @@ def run_shard(spec):
 def replay(doc):
     instr.install(["windpyutils.structures.lists"])
     return seq.std_replay(__import__("vf.checks.c08", fromlist=["x"]), doc)
+
+
+RULE += ' Also (wave 9): deep copies / pickle round trips of (list, node handles) continued with the copies, shallow copies of the list with one handle dropped and collected.'
